@@ -716,7 +716,40 @@ func (g *gen) sSort(fc *fctx) []Stmt {
 	}
 }
 
+// sProtectedBuiltinCallback: pcall directly over a builtin that calls back into Lua (string.gsub, table.sort); the
+// callback creates a closure over one of its locals, lets it escape and raises. The closure keeps its variable.
+func (g *gen) sProtectedBuiltinCallback(fc *fctx) []Stmt {
+	g.use("pcall_over_builtin_with_failing_callback")
+	g.cost(40)
+	cb, x, y, cl, esc, ok, e, r1, r2 := g.fresh("cb"), g.fresh("x"), g.fresh("y"), g.fresh("cl"), g.fresh("GE"), g.fresh("ok"), g.fresh("e"), g.fresh("r"), g.fresh("r")
+	g.prog.NFuncs++
+	clDef := &FuncDef{ID: g.prog.NFuncs, Body: []Stmt{&Assign{Targets: []Expr{Var{x}}, Exprs: []Expr{Bin{"+", Var{x}, Num{1}}}}, &Return{Exprs: []Expr{Var{x}}}}}
+	g.prog.NFuncs++
+	cbDef := &FuncDef{ID: g.prog.NFuncs, Params: []string{"ca", "cb2"}, Body: []Stmt{
+		&Local{Names: []string{y, x}, Exprs: []Expr{Num{7}, Num{float64(40 + g.ch(5))}}},
+		&Local{Names: []string{cl}, Exprs: []Expr{Func{clDef}}},
+		&Assign{Targets: []Expr{Var{esc}}, Exprs: []Expr{Var{cl}}},
+		&Call{Fn: Var{cl}},
+		&Call{Fn: Var{"error"}, Args: []Expr{Str{"cbfail"}}}}}
+	out := []Stmt{&Local{Names: []string{cb}, Exprs: []Expr{Func{cbDef}}}}
+	if g.feat("sort") && g.ch(2) == 0 {
+		out = append(out, &Call{Names: []string{ok, e}, Fn: Var{"pcall"}, Args: []Expr{Var{"tsort"}, TableCons{Arr: []Expr{Num{3}, Num{1}, Num{2}}}, Var{cb}}})
+	} else {
+		out = append(out, &Call{Names: []string{ok, e}, Fn: Var{"pcall"}, Args: []Expr{Var{"gsub"}, Str{"ab"}, Str{"%a"}, Var{cb}}})
+	}
+	out = append(out, &Call{Fn: Var{"emit"}, Args: []Expr{Str{"pb"}, Var{ok}, Var{e}}})
+	if g.feat("clobber") {
+		out = append(out, g.sClobber(fc)...)
+	}
+	out = append(out, &Call{Names: []string{r1}, Fn: Var{esc}}, &Call{Names: []string{r2}, Fn: Var{esc}},
+		&Call{Fn: Var{"emit"}, Args: []Expr{Str{"pb2"}, Var{r1}, Var{r2}}})
+	return []Stmt{&Do{Body: out}}
+}
+
 func (g *gen) sGsub(fc *fctx) []Stmt {
+	if g.feat("pcall") && g.feat("closure") && g.feat("error") && g.ch(4) == 0 {
+		return g.sProtectedBuiltinCallback(fc)
+	}
 	g.use("gsub")
 	cb, c := g.fresh("cb"), g.fresh("c")
 	rs, rn := g.fresh("gs"), g.fresh("gn")
